@@ -311,6 +311,13 @@ def translate(rec, want_debug=False):
             alabels[n["lab"]] = i
     before_ids = set(bidx.keys())
 
+    # dynamically aligned frames (`and sp, -N`): supported when no argument arrives on the stack (the frame is then addressed
+    # from the re-aligned sp only); the aligned sp is re-based to a region far away from the entry-relative cells
+    has_stack_args = any(a["abi"]["k"] in ("stack", "inds") for a in fn["args"])
+    dyn_align = F.x86 and not has_stack_args and any(
+        n.get("i") == "and" and n.get("ops") and n["ops"][0]["k"] == "r" and F.is_sp(n["ops"][0]) for n in after[astart:aend + 1])
+    REBASE = -(1 << 20)
+
     def sp_effect(n, sp):
         """returns new sp after node n (entry sp = 0), or raises"""
         if n["t"] not in ("inst", "jump", "invoke", "ret"):
@@ -326,6 +333,10 @@ def translate(rec, want_debug=False):
                     return sp - ops[1]["v"] if nm == "sub" else sp + ops[1]["v"]
                 if nm in ("cmp", "test"):
                     return sp
+                if dyn_align and nm == "and" and len(ops) == 2 and ops[1]["k"] == "i":
+                    return REBASE
+                if dyn_align and nm in ("mov", "lea"):
+                    return -REBASE        # epilog: sp restored from the frame pointer; only pops / ret follow
                 raise Unsupported("stack pointer modified by " + nm)
             if nm in ("ret",):
                 return sp
@@ -628,10 +639,15 @@ def translate(rec, want_debug=False):
             emit(ai, ["K", [F.cell(sp - F.W, F.W)]]); continue
         if F.x86 and nm == "pop" and len(aops) == 1 and aops[0]["k"] == "r":
             emit(ai, ["C", F.rloc(aops[0]), F.cell(sp, F.W), []]); continue
-        if aops and aops[0]["k"] == "r" and F.is_sp(aops[0]) and nm in ("sub", "add"):
+        if aops and aops[0]["k"] == "r" and F.is_sp(aops[0]) and (nm in ("sub", "add") or (dyn_align and nm in ("and", "mov", "lea"))):
             emit(ai, ["N"]); continue
         if nm == "xchg" and len(aops) == 2 and all(o["k"] == "r" for o in aops):
-            emit(ai, ["X", F.rloc(aops[0]), F.rloc(aops[1])]); continue
+            la, lb = F.rloc(aops[0]), F.rloc(aops[1])
+            emit(ai, ["X", la, lb])
+            if F.arch == "x64" and aops[0]["g"] == 0 and reg_size(aops[0]) == 4:
+                # ISA: `xchg r32, r32` zero-extends both registers - values wider than 4 bytes do not survive the swap
+                code.append(["I", [], [], [[la, 4], [lb, 4]], [], []])
+            continue
         if F.x86 and nm in ("xor", "pxor", "xorps", "vpxor", "vxorps") and len(aops) >= 2 and aops[0]["k"] == "r" and all(o == aops[0] for o in aops[1:]):
             emit(ai, ["K", [F.rloc(aops[0])]]); continue
         if nm == "lea" and aops and aops[0]["k"] == "r":
